@@ -66,6 +66,20 @@ def explore(ctx):
         if s["nonce"] == "" and i % 3:
             s["nonce"] = "%032x" % rng.getrandbits(128)
         cs.append(s)
+    # fixed shapes: two credentials whose claim 1 is tied by an equality statement, with a predicate on that very claim
+    # (a reference retargeted to the other credential then meets the same response: only the transcript tells them apart)
+    for suite in ("bbs", "ps"):
+        for pk in ("comm", "venc", "rev1"):
+            creds = [{"claims": [{"t": "r", "s": f"id-{ci}"}, CC.claim(rng, "h", "Alice"), CC.claim(rng, "n", 41 + ci)]} for ci in range(2)]
+            stmts = [{"k": "sig", "id": "s0", "cred": 0, "disclosed": []}, {"k": "sig", "id": "s1", "cred": 1, "disclosed": []},
+                     {"k": "eq", "id": "e0", "refs": [["s0", 1], ["s1", 1]]}]
+            if pk == "comm":
+                stmts.append({"k": "comm", "id": "c0", "ref": "s0", "claim": 1, "gens": "hash"})
+            elif pk == "venc":
+                stmts.append({"k": "venc", "id": "v0", "ref": "s0", "claim": 1, "dec": False, "gen": "std"})
+            else:
+                stmts.append({"k": "rev", "id": "r0", "ref": "s0", "claim": 0})
+            cs.append({"op": "f_create", "suite": suite, "seed": rng.randrange(1 << 30), "nonce": "0a0b", "creds": creds, "stmts": stmts, "action": {"k": "ctx"}})
     if ctx.get("replay"):
         rp = json.load(open(ctx["replay"]))
         if rp.get("case", {}).get("scenario"):
@@ -111,7 +125,7 @@ def explore(ctx):
     return {
         "evaluations": len(terms),
         "distinct_nontrivial": len(distinct),
-        "rule": "cases = honestly created presentations over generated schemas (all statement kinds, 1..3 credentials, BBS/PS) x every single change of a verifier-side parameter (nonce bit flip / truncation / extension, schema id, statement order, and per statement: issuer id, signing key, revocation key, registry value, encryption key, credential-schema id / label / description / blindable list / same-length claim-label rename / claim count, requested disclosures, claim index, registry and keys, generators, range bounds and their presence, decryption flag, equality references); each must make Presentation::verify fail, and the library's transcript digest must change exactly when the Coq payload sequence changes; distinct by (suite, statements, mutation)",
+        "rule": "cases = honestly created presentations over generated schemas (all statement kinds, 1..3 credentials, BBS/PS) x every single change of a verifier-side parameter (nonce bit flip / truncation / extension, schema id, statement order, and per statement: issuer id, signing key, revocation key, registry value, encryption key, credential-schema id / label / description / blindable list / same-length claim-label rename / claim count, requested disclosures, reference ids (retargeted to another signature statement), claim index, registry and keys, generators, range bounds and their presence, decryption flag, equality references); each must make Presentation::verify fail, and the library's transcript digest must change exactly when the Coq payload sequence changes; distinct by (suite, statements, mutation)",
         "samples": samples or [{"mutation": "none"}],
         "histograms": hist,
         "failures": failures,
